@@ -512,3 +512,19 @@ class Painted(metaclass=StableHashMeta):
 
     shade: Optional[Shade] = field(default=None, metadata={"type": "Attribute"})
     shades: list[Shade] = field(default_factory=list, metadata={"type": "Element", "name": "tint"})
+
+
+class Matrix:
+    """Not subscriptable: evaluating the annotation below raises TypeError."""
+
+
+@dataclass
+class Plot:
+    """A dataclass in the conventions of some other library; it only has to be loaded."""
+
+    plot_data: "Optional[Matrix[float]]" = None
+
+
+@dataclass
+class CliOptions:
+    cli_verbose: bool = field(default=False, metadata={"type": "flag", "help": "say more"})
